@@ -28,6 +28,7 @@ mod diff;
 mod expect;
 mod lexer;
 mod mcheck;
+mod metamorph;
 mod meval;
 mod mnat;
 mod mresolve;
